@@ -245,6 +245,18 @@ fn fixed_nid(g: &str) -> String {
     format!("na{}", &g[1..])
 }
 
+fn to_read(o: Op, rng: &mut StdRng) -> Op {
+    let k: &'static str = match o.k {
+        "save_group" => ["find_group", "find_by_nid", "all_groups"][rng.gen_range(0..3)],
+        "replace_relays" => "group_relays",
+        "save_secret" => "get_secret",
+        "save_message" => ["find_message", "messages"][rng.gen_range(0..2)],
+        "snap_create" | "snap_rollback" | "snap_release" => "snap_list",
+        other => other,
+    };
+    Op { k, sync: false, ..o }
+}
+
 /// seeded plan: per-thread op lists; versions are unique per history
 pub fn plan(rng: &mut StdRng, profile: &str, threads: usize, total: usize) -> Vec<Vec<Op>> {
     let mut ver = 1u64;
@@ -392,6 +404,9 @@ pub fn plan(rng: &mut StdRng, profile: &str, threads: usize, total: usize) -> Ve
                     }
                 }
             };
+            // with many threads only the first four write (the search over pending writes is exponential);
+            // the others issue the corresponding reads, which is where torn states would be seen
+            let o = if threads > 6 && t >= 4 { to_read(o, rng) } else { o };
             ops.push(o);
         }
         out.push(ops);
